@@ -147,14 +147,16 @@ structure WSt where
   nbit : Nat
   deriving Repr
 
-/-- `word_get()`; returns the word and the new (`inpbuf`, `file_`) -/
+/-- `word_get()`; returns the word and the new (`inpbuf`, `file_`).
+    (`len(inpbuf) < 4` is decided by matching on the first four bytes.) -/
 def wordGet (inp file : List Nat) : Except Err (Int × List Nat × List Nat) :=
-  let (inp, file) :=
-    if inp.length < 4 then (inp ++ file.take (BUFSIZ - inp.length), file.drop (BUFSIZ - inp.length))
-    else (inp, file)
   match inp with
   | b0 :: b1 :: b2 :: b3 :: rest => .ok (be32 b0 b1 b2 b3, rest, file)
-  | _ => .error (.io .eof)
+  | short =>
+    -- inpbuf = inpbuf.tobytes() + file_.read(BUFSIZ - len(inpbuf))
+    match short ++ file.take (BUFSIZ - short.length) with
+    | b0 :: b1 :: b2 :: b3 :: rest => .ok (be32 b0 b1 b2 b3, rest, file.drop (BUFSIZ - short.length))
+    | _ => .error (.io .eof)
 
 /-- `gbuffer & (1 << n)` is non-zero (two's complement of a Python int) -/
 def bitSet (g : Int) (n : Nat) : Bool := (g >>> n) % 2 = 1
@@ -189,8 +191,9 @@ def binW : Nat → Nat → Nat → Int → Nat → List Nat → List Nat →
       | .error e => .error e
       | .ok (g', inp', file') => binW f (nbin - nbit) result g' NBITPERLONG inp' file'
 
-/-- `uvar_get(nbin)` -/
-def uvarW (nbin : Nat) (w : WSt) : Except Err (Nat × WSt) :=
+/-- `uvar_get(nbin)`.  `F` is the fuel of the `while True:` loop: any bound on the number of bits
+    left in the stream (a constant of the whole run, so that no length is recomputed per call). -/
+def uvarW (F : Nat) (nbin : Nat) (w : WSt) : Except Err (Nat × WSt) :=
   let start : Except Err (Int × Nat × List Nat × List Nat) :=
     if w.nbit = 0 then
       match wordGet w.inp w.file with
@@ -200,7 +203,7 @@ def uvarW (nbin : Nat) (w : WSt) : Except Err (Nat × WSt) :=
   match start with
   | .error e => .error e
   | .ok (g, nbit, inp, file) =>
-    match unaryW (nbit + 8 * (inp.length + file.length) + 1) g nbit 0 inp file with
+    match unaryW F g nbit 0 inp file with
     | .error e => .error e
     | .ok (result, g, nbit, inp, file) =>
       match binW (nbin + 2) nbin result g nbit inp file with
